@@ -1114,16 +1114,19 @@ struct Scanner : RecursiveASTVisitor<Scanner> {
          if (auto Pat = FD->getTemplateInstantiationPattern()) o["pattern_loc"] = locStr(Pat->getLocation());
       }
       if (auto Args = FD->getTemplateSpecializationArgs()) o["targs"] = targsArr(Args->asArray());
+      BodyWriter W(FD);
       json::Array params;
       for (auto P : FD->parameters()) {
          json::Object p;
          p["name"] = P->getNameAsString();
          p["t"] = typeStr(P->getType());
-         if (P->hasDefaultArg() and !P->hasUninstantiatedDefaultArg() and !P->hasUnparsedDefaultArg()) p["default"] = true;
+         if (P->hasDefaultArg() and !P->hasUninstantiatedDefaultArg() and !P->hasUnparsedDefaultArg()) {
+            p["default"] = true;
+            if (P->getDefaultArg()) p["defarg"] = W.X(P->getDefaultArg());
+         }
          params.push_back(std::move(p));
       }
       o["params"] = std::move(params);
-      BodyWriter W(FD);
       if (auto MD = dyn_cast<CXXMethodDecl>(FD)) {
          o["parent"] = recName(MD->getParent());
          if (auto S = dyn_cast<ClassTemplateSpecializationDecl>(MD->getParent()))
